@@ -449,6 +449,78 @@ fn decode(gen: Gen, buf: &[u8]) -> Result<RunResult, String> {
 // ---------------------------------------------------------------------------------------------
 // fork
 // ---------------------------------------------------------------------------------------------
+/// Run `f` in a forked child and return the bytes it produced (no time limit beyond the run limit).
+pub fn fork_call(f: impl FnOnce() -> Vec<u8>) -> Result<Vec<u8>, String> {
+    let mut fds = [0i32; 2];
+    if unsafe { libc::pipe(fds.as_mut_ptr()) } != 0 {
+        return Err("pipe() failed".into());
+    }
+    let pid = unsafe { libc::fork() };
+    if pid < 0 {
+        unsafe {
+            libc::close(fds[0]);
+            libc::close(fds[1]);
+        }
+        return Err("fork() failed".into());
+    }
+    if pid == 0 {
+        IN_CHILD.store(true, Ordering::SeqCst);
+        unsafe { libc::close(fds[0]) };
+        let buf = std::panic::catch_unwind(std::panic::AssertUnwindSafe(f)).unwrap_or_default();
+        let mut off = 0usize;
+        while off < buf.len() {
+            let n = unsafe { libc::write(fds[1], buf[off..].as_ptr() as *const libc::c_void, buf.len() - off) };
+            if n <= 0 {
+                break;
+            }
+            off += n as usize;
+        }
+        unsafe {
+            libc::close(fds[1]);
+            libc::_exit(0);
+        }
+    }
+    unsafe { libc::close(fds[1]) };
+    let mut buf: Vec<u8> = vec![];
+    let mut chunk = vec![0u8; 1 << 16];
+    let started = std::time::Instant::now();
+    let limit = std::time::Duration::from_secs(LIMIT_S.load(Ordering::Relaxed));
+    let mut timed_out = false;
+    loop {
+        if started.elapsed() > limit {
+            timed_out = true;
+            break;
+        }
+        let mut p = libc::pollfd {
+            fd: fds[0],
+            events: libc::POLLIN,
+            revents: 0,
+        };
+        let pr = unsafe { libc::poll(&mut p, 1, 1000) };
+        if pr <= 0 {
+            continue;
+        }
+        let n = unsafe { libc::read(fds[0], chunk.as_mut_ptr() as *mut libc::c_void, chunk.len()) };
+        if n > 0 {
+            buf.extend_from_slice(&chunk[..n as usize]);
+        } else if n == 0 {
+            break;
+        } else if std::io::Error::last_os_error().kind() != std::io::ErrorKind::Interrupted {
+            break;
+        }
+    }
+    unsafe { libc::close(fds[0]) };
+    let mut status = 0i32;
+    if timed_out {
+        unsafe { libc::kill(pid, libc::SIGKILL) };
+    }
+    unsafe { libc::waitpid(pid, &mut status, 0) };
+    if timed_out {
+        return Err("the child did not finish in time".into());
+    }
+    Ok(buf)
+}
+
 /// what the parent learns from one isolated run
 pub enum Outcome {
     Done(RunResult),
